@@ -208,6 +208,24 @@ Definition choice_regex (a : node) (o3 : nat) : bool :=
   | _ => false
   end.
 
+(* node k of the second grammar is a plain regex match, possibly under one unit wrapper sequence *)
+Definition regex_alt (k : nat) : option nat :=
+  match regex_oid g2 k with
+  | Some o => Some o
+  | None => match unit_kid g2 k with Some y => regex_oid g2 y | None => None end
+  end.
+
+(* one regex match (first grammar) against an ordered choice of two regex matches (second grammar; weak mode) *)
+Definition regex_choice_r (o3 : nat) (b : node) : bool :=
+  match n_kids b with
+  | [k1; k2] =>
+    match regex_alt k1, regex_alt k2 with
+    | Some o1, Some o2 => in_alts o1 o2 o3 && existsb (Nat.eqb o1) ne && existsb (Nat.eqb o2) ne
+    | _, _ => false
+    end
+  | _ => false
+  end.
+
 Definition sep_ok (a b : node) : bool :=
   match n_sep a, n_sep b with
   | None, None => true
@@ -230,6 +248,7 @@ Definition struct_ok (a b : node) : bool :=
     | _, _, _ => false
     end
   | KChoice, KRegex o3 => weak && choice_regex a o3
+  | KRegex o3, KChoice => weak && regex_choice_r o3 b
   | KChoice, KChoice => zip_in true (n_kids a) (n_kids b) && cho_ok g1 a && cho_ok g2 b
   | KOpt, KOpt =>
     match n_kids a, n_kids b with
@@ -444,7 +463,8 @@ Definition sN (s : string) : list N := map N_of_ascii (list_ascii_of_string s).
 (* regular expressions that cannot match the empty string (oracle hypothesis of the soundness theorem, checked
    per run on every oracle table by tools/props/c24.py and by re.match('') in the translator) *)
 Definition textx_nonempty_patterns : list (list N) :=
-  map sN [ "\w+"; "'((\\')|[^'])*'"; """((\\"")|[^""])*""" ]%string.
+  map sN [ "\w+"; "'((\\')|[^'])*'"; """((\\"")|[^""])*""";
+           "(ID|BOOL|INT|FLOAT|STRING|NUMBER|BASETYPE)\b(?!\.\w)"; "\w+(\.\w+)*" ]%string.
 
 (* oracle ids of the shared table whose pattern text is in the list *)
 Definition ne_of (oracles : list (list N * nat)) (pats : list (list N)) : list nat :=
@@ -458,7 +478,8 @@ Definition ne_of (oracles : list (list N * nat)) (pats : list (list N)) : list n
    matches there (oracle hypothesis of the acceptance theorem, checked per run with re on every text and position) *)
 Definition textx_alt_patterns : list (list N * list N * list N) :=
   map (fun t => match t with (a, b, c) => (sN a, sN b, sN c) end)
-  [ ("'((\\')|[^'])*'", """((\\"")|[^""])*""", "(""(\\""|[^""])*"")|(\'(\\\'|[^\'])*\')") ]%string.
+  [ ("'((\\')|[^'])*'", """((\\"")|[^""])*""", "(""(\\""|[^""])*"")|(\'(\\\'|[^\'])*\')");
+    ("(ID|BOOL|INT|FLOAT|STRING|NUMBER|BASETYPE)\b(?!\.\w)", "\w+(\.\w+)*", "\w+(\.\w+)*") ]%string.
 
 Definition oid_of (oracles : list (list N * nat)) (p : list N) : option nat :=
   (fix go (l : list (list N * nat)) (k : nat) : option nat :=
@@ -510,5 +531,6 @@ Definition textx_accepted_diffs : list (list N * list N) :=
 
 (* accepted pairs of the acceptance-only (weak) check *)
 Definition textx_accepted_diffs_acc : list (list N * list N) :=
-  filter (fun p => negb (lp_eqb p (sN "string_value", sN "STRING")) && negb (lp_eqb p (sN "str_match", sN "STRING")))%string
+  filter (fun p => negb (lp_eqb p (sN "string_value", sN "STRING")) && negb (lp_eqb p (sN "str_match", sN "STRING"))
+                   && negb (lp_eqb p (sN "rule_ref", sN "RuleRef")))%string
          textx_accepted_diffs.
